@@ -16,7 +16,13 @@ RULE = ('every Matrix operation (copy/to_wirevector round trip, + - * scalar* @ 
         'hstack/vstack/concatenate, bits setter, multiply) is built with the real Matrix class on '
         'Input-driven operands of shape <= 4x4, element widths 1..8 mixed, max_bits 64 or small (2..12, '
         'so that capping happens); result.to_wirevector() is simulated with pyrtl.Simulation, decoded and '
-        'compared with Lib/Matrix.v (tie) and with nested-list arithmetic (search); the catalogue = '
+        'compared with Lib/Matrix.v (tie) and with nested-list arithmetic (search); the attributes of every '
+        'result object (max_bits, signed, rows/columns vs the element table) are compared with the model '
+        'and with what the documentation implies (source operand\'s max_bits; max for stacking; 64 for '
+        'axis reductions); CHAINED operations op2(op1(A..), B) with op1 in {copy, transpose, reversed, '
+        'flatten, reshape, getitem block, hstack/vstack/concatenate, put, setitem, bits setter} and op2 in '
+        '{+, *, @, **2, dot} are built with all-max values and checked for the documented width and the '
+        'exact value of op2 (so a wrong bits/max_bits on the intermediate shows); the catalogue = '
         'every op on tiny shapes + systematic argument sweeps on six mid-size shapes + directed '
         'small-max_bits cases + seeded random cases; element values are exhaustive when all operands '
         'together have <= 8 input bits (<= 12 for the tiny-shape set in the thorough tier), otherwise '
